@@ -422,8 +422,10 @@ def rule_r3(repo):
         ('helper numbered 360005 at the end of a sequence body', [SEQ(361001, [E(1001), SEQ(360005, [DEL([])]), SEQ(361003, [E(12101)])]), E(7004)],
          [(361001, [1001, (101000, [(361003, [12101])])]), 7004]),
     ]
+    from sa.patheval import freeze as _freeze
     for name, tree, want in cases:
         it = F(repo, None)
+        before = [_freeze(d) for d in tree]
         res = it.run_function(fx, lambda: {'descriptors': list(tree)})
         rr.instance('_fix_ncep_descriptors: %s' % name)
         if len(res) != 1:
@@ -432,6 +434,10 @@ def rule_r3(repo):
         got = shape(r.value) if r.ok and isinstance(r.value, list) else r.describe()
         if got != want:
             rr.fail('tables._fix_ncep_descriptors', fx.where, '%s: %s becomes %s (expected %s)' % (name, shape(tree), got, want), witness={'case': name})
+        # the descriptors handed in come from the table caches and are shared by every template: the repair works on copies
+        if [_freeze(d) for d in tree] != before:
+            rr.fail('tables._fix_ncep_descriptors:input-changed', fx.where, '%s: the descriptor objects handed in are changed in place (%s afterwards): they are cached per table '
+                    'group and shared by every later template' % (name, shape(tree)), witness={'case': name})
     rr.require_floor(8)
     return rr
 
